@@ -182,8 +182,6 @@ func Conv(f Format, val interface{}) (Value, error) {
 
 func toInt8(val interface{}) (int8, error) {
 	switch x := val.(type) {
-	case uint8:
-		return int8(x), nil
 	case int8:
 		return x, nil
 	default:
@@ -236,8 +234,6 @@ func toInt8List(val interface{}) ([]int8, error) {
 
 func toUInt8(val interface{}) (uint8, error) {
 	switch x := val.(type) {
-	case int8:
-		return uint8(x), nil
 	case uint8:
 		return x, nil
 	default:
@@ -294,8 +290,6 @@ func toInt16(val interface{}) (int16, error) {
 		return int16(x), nil
 	case uint8:
 		return int16(x), nil
-	case uint16:
-		return int16(x), nil
 	case int16:
 		return x, nil
 	default:
@@ -348,11 +342,7 @@ func toInt16List(val interface{}) ([]int16, error) {
 
 func toUInt16(val interface{}) (uint16, error) {
 	switch x := val.(type) {
-	case int8:
-		return uint16(x), nil
 	case uint8:
-		return uint16(x), nil
-	case int16:
 		return uint16(x), nil
 	case uint16:
 		return x, nil
@@ -416,24 +406,12 @@ func toInt32(val interface{}) (n int32, err error) {
 		return int32(x), nil
 	case int32:
 		return int32(x), nil
-	case uint32:
-		return int32(x), nil
-	case uint:
-		return int32(x), nil
-	case int:
-		return int32(x), nil
-	case int64:
-		return int32(x), nil
 	case string:
 		i, err := strconv.ParseInt(x, 10, 32)
 		return int32(i), err
-	case float64:
-		return int32(x), nil
-	case float32:
-		return int32(x), nil
 	default:
 		i, err := toInt64(val)
-		if err == nil && i >= math.MinInt32 && i <= math.MaxUint32 {
+		if err == nil && i >= math.MinInt32 && i <= math.MaxInt32 {
 			return int32(i), nil
 		}
 	}
@@ -490,19 +468,9 @@ func toInt32List(val interface{}) ([]int32, error) {
 
 func toUInt32(val interface{}) (uint32, error) {
 	switch x := val.(type) {
-	case int8:
-		return uint32(x), nil
 	case uint8:
 		return uint32(x), nil
-	case int16:
-		return uint32(x), nil
 	case uint16:
-		return uint32(x), nil
-	case int32:
-		return uint32(x), nil
-	case uint:
-		return uint32(x), nil
-	case int:
 		return uint32(x), nil
 	case uint32:
 		return x, nil
@@ -580,22 +548,36 @@ func toInt64(val interface{}) (n int64, err error) {
 	case int:
 		return int64(x), nil
 	case uint:
-		return int64(x), nil
+		if uint64(x) <= math.MaxInt64 {
+			return int64(x), nil
+		}
 	case uint64:
-		return int64(x), nil
+		if x <= math.MaxInt64 {
+			return int64(x), nil
+		}
 	case int64:
 		return x, nil
 	case string:
 		return strconv.ParseInt(x, 10, 64)
 	case float64:
-		return int64(x), nil
+		// only whole numbers inside the int64 range convert without loss
+		if x == math.Trunc(x) && x >= -(1<<63) && x < (1<<63) {
+			return int64(x), nil
+		}
 	case float32:
-		return int64(x), nil
+		return toInt64(float64(x))
 	case time.Time:
 		return x.Unix(), nil
 	default:
-		if rv := reflect.ValueOf(val); rv.CanInt() {
+		rv := reflect.ValueOf(val)
+		if rv.CanInt() {
 			return rv.Int(), nil
+		}
+		if rv.CanUint() {
+			return toInt64(rv.Uint())
+		}
+		if rv.CanFloat() {
+			return toInt64(rv.Float())
 		}
 	}
 	return 0, fmt.Errorf("cannot coerse '%T' to int64", val)
@@ -658,37 +640,50 @@ func toInt64List(val interface{}) ([]int64, error) {
 func toUInt64(val interface{}) (uint64, error) {
 	switch x := val.(type) {
 	case int8:
-		return uint64(x), nil
+		return toUInt64(int64(x))
 	case uint8:
 		return uint64(x), nil
 	case int16:
-		return uint64(x), nil
+		return toUInt64(int64(x))
 	case uint16:
 		return uint64(x), nil
 	case int:
-		return uint64(x), nil
+		return toUInt64(int64(x))
 	case uint:
 		return uint64(x), nil
 	case int32:
-		return uint64(x), nil
+		return toUInt64(int64(x))
 	case uint32:
 		return uint64(x), nil
 	case int64:
-		return uint64(x), nil
+		// negative numbers have no unsigned equivalent
+		if x >= 0 {
+			return uint64(x), nil
+		}
 	case uint64:
 		return x, nil
 	case string:
 		i, err := strconv.ParseUint(x, 10, 64)
 		return uint64(i), err
 	case float64:
-		return uint64(x), nil
+		// only whole numbers inside the uint64 range convert without loss
+		if x == math.Trunc(x) && x >= 0 && x < (1<<64) {
+			return uint64(x), nil
+		}
 	case float32:
-		return uint64(x), nil
+		return toUInt64(float64(x))
 	case time.Time:
-		return uint64(x.Unix()), nil
+		return toUInt64(x.Unix())
 	default:
-		if rv := reflect.ValueOf(val); rv.CanUint() {
+		rv := reflect.ValueOf(val)
+		if rv.CanUint() {
 			return rv.Uint(), nil
+		}
+		if rv.CanInt() {
+			return toUInt64(rv.Int())
+		}
+		if rv.CanFloat() {
+			return toUInt64(rv.Float())
 		}
 	}
 	return 0, fmt.Errorf("cannot coerse '%T' to uint64", val)
@@ -698,8 +693,11 @@ func toUInt64List(val interface{}) ([]uint64, error) {
 	switch x := val.(type) {
 	case []int:
 		l := make([]uint64, len(x))
+		var err error
 		for i := 0; i < len(x); i++ {
-			l[i] = uint64(x[i])
+			if l[i], err = toUInt64(x[i]); err != nil {
+				return nil, err
+			}
 		}
 		return l, nil
 	case []uint64:
@@ -773,11 +771,18 @@ func toDecimal64(val interface{}) (float64, error) {
 	case int64:
 		return float64(x), nil
 	case float32:
-		return float64(x), nil
+		return toDecimal64(float64(x))
 	case float64:
-		return x, nil
+		// NaN and infinities are not decimal64 values
+		if !math.IsNaN(x) && !math.IsInf(x, 0) {
+			return x, nil
+		}
 	case string:
-		return strconv.ParseFloat(x, 64)
+		f, err := strconv.ParseFloat(x, 64)
+		if err != nil {
+			return 0, err
+		}
+		return toDecimal64(f)
 	}
 	return 0, fmt.Errorf("cannot coerse '%T' to float64", val)
 }
